@@ -65,7 +65,7 @@ static rc::Gen<Op> gen_op_from(const std::map<int, double> &w, int nmods, const 
         case P::O_CTX_REG: ga = gens::range<long>(0, 8); gb = prop == "C07" ? gens::weighted_values<long>({{2, 0}, {1, 1}}) : gens::weighted_values<long>({{6, 0}, {1, 1}}); break;
         case P::O_LOOP: ga = gens::weighted_values<long>({{2, 0}, {2, 9}, {1, 200}}); break;
         case P::O_QUIT: ga = gens::weighted_values<long>({{2, 0}, {2, 7}, {1, 42}, {1, 255}, {1, 4}, {1, 11}}); break;
-        case P::O_DISPATCH: ga = gens::weighted_values<long>({{5, 1}, {3, 2}, {2, 4}, {1, 12}}); if (prop == "C03") gb = gens::weighted_values<long>({{14, 0}, {3, 1}, {1, 2}, {1, 3}, {1, 4}}); else if (prop == "C04" || prop == "C02" || prop == "C08") gb = gens::weighted_values<long>({{30, 0}, {1, 1}, {1, 3}}); break;
+        case P::O_DISPATCH: ga = gens::weighted_values<long>({{5, 1}, {3, 2}, {2, 4}, {1, 12}}); if (prop == "C03") gb = gens::weighted_values<long>({{14, 0}, {3, 1}, {1, 2}, {1, 3}, {1, 4}}); else if (prop == "C04" || prop == "C02" || prop == "C08") gb = gens::weighted_values<long>({{30, 0}, {1, 1}, {1, 3}, {1, 5}}); else if (prop == "C07") gb = gens::weighted_values<long>({{10, 0}, {2, 5}}); else gb = gens::weighted_values<long>({{40, 0}, {1, 5}}); break;
         case P::O_SET_TICK: ga = gens::weighted_values<long>({{1, 0}, {2, 2}, {2, 5}, {1, 10}}); break;
         case P::O_REG: if (prop == "C04") { ga = gens::weighted_values<long>({{8, 0}, {2, 1}, {1, 2}, {1, 4}, {5, 64}, {1, 8}, {1, 16}, {1, 32}, {2, 68}, {1, 65}}); gb = gens::weighted_values<long>({{1, 0}, {1, 1}}); break; }
             ga = prop == "C15" ? gens::weighted_values<long>({{3, 0}, {3, 1}, {2, 2}, {1, 3}, {3, 8}, {3, 16}, {3, 32}, {1, 4}, {1, 64}, {1, 9}, {1, 56}}) : gens::weighted_values<long>({{12, 0}, {2, 1}, {1, 2}, {1, 4}, {1, 64}, {1, 8}, {1, 16}, {1, 32}, {1, 68}}); gb = gens::weighted_values<long>({{2, 0}, {1, 1}}); break;
@@ -75,14 +75,15 @@ static rc::Gen<Op> gen_op_from(const std::map<int, double> &w, int nmods, const 
         case P::O_TELL: case P::O_BCAST: ga = gens::weighted_values<long>({{3, 0}, {1, 1}}); break;
         case P::O_PUB: ga = gens::weighted_values<long>({{4, 0}, {3, 1}, {3, 2}, {2, 3}, {1, 7}, {1, 8}, {1, 16}}); gb = gens::weighted_values<long>({{3, 0}, {1, 1}}); break;
         case P::O_FLOOD: ga = gens::weighted_values<long>({{1, 8191}, {1, 8192}, {1, 8193}, {1, 9000}}); break;
-        case P::O_BECOME: ga = gens::range<long>(0, 4); break;
+        case P::O_BECOME: ga = gens::weighted_values<long>({{8, 0}, {8, 1}, {8, 2}, {8, 3}, {1, 100}, {1, 102}}); break;
         case P::O_STASH: case P::O_REF_EVT: ga = gens::range<long>(0, 4); break;
         case P::O_UNSTASH: ga = gens::weighted_values<long>({{3, 1}, {3, 2}, {2, 3}, {1, 5}, {2, 0}}); break;
         case P::O_BATCH_SIZE: ga = gens::weighted_values<long>({{2, 0}, {1, 1}, {4, 2}, {3, 3}, {2, 5}, {1, -1}}); break;
         case P::O_BATCH_TIMEOUT: ga = gens::weighted_values<long>({{2, 0}, {2, 2}, {1, 5}}); break;
-        case P::O_FD_REG: ga = gens::range<long>(0, 8); gb = (prop == "C20" || prop == "C04") ? gens::weighted_values<long>({{3, 0}, {3, 1}, {2, 2}, {2, 4}, {1, 5}, {1, 6}}) : gens::weighted_values<long>({{6, 0}, {1, 1}, {2, 4}}); break;
+        case P::O_FD_REG: ga = gens::range<long>(0, 8); gb = (prop == "C20" || prop == "C04") ? gens::weighted_values<long>({{3, 0}, {3, 1}, {2, 2}, {2, 4}, {1, 5}, {1, 6}}) : gens::weighted_values<long>({{6, 0}, {1, 1}, {2, 4}});
+            gb = gen::map(gen::pair(gb, gens::weighted_values<long>({{24, 0}, {1, 1}, {1, 2}, {2, 3}})), [](std::pair<long, long> p) { return p.first + 256 * p.second; }); break;
         case P::O_FD_DEREG: case P::O_FD_WRITE: case P::O_FD_READ: ga = gens::range<long>(0, 8); break;
-        case P::O_TMR_REG: ga = gens::range<long>(0, 6); gb = gens::weighted_values<long>({{4, 0}, {1, 1}, {1, 3}, {2, 4}}); break;
+        case P::O_TMR_REG: ga = gens::range<long>(0, 6); gb = gen::map(gen::pair(gens::weighted_values<long>({{4, 0}, {1, 1}, {1, 3}, {2, 4}}), gens::weighted_values<long>({{24, 0}, {1, 1}, {1, 2}, {2, 3}})), [](std::pair<long, long> p) { return p.first + 256 * p.second; }); break;
         case P::O_TMR_DEREG: ga = gens::range<long>(0, 6); break;
         case P::O_ERRNO: ga = gens::weighted_values<long>({{1, 4}, {1, 11}, {2, 2}, {2, 9}, {1, 32}, {1, 255}, {1, 22}}); break;
         case P::O_SRC_REG: case P::O_SRC_DEREG: if (prop != "C09reg") { ga = gens::range<long>(3, 8); gb = gens::range<long>(0, 3); break; } ga = gens::range<long>(1, 8); gb = gens::weighted_values<long>({{5, 0}, {5, 1}, {4, 2}, {3, 3}, {2, 4}, {2, 5}, {4, 6}, {4, 7}, {3, 8}, {2, 9}, {2, 10}, {2, 11}, {2, 99}}); break;
